@@ -116,7 +116,50 @@ def run(chk: core.Check, tier: str, seed: int) -> None:
             except Exception as err:  # noqa: BLE001
                 rec["rout"], rec["cls"], rec["rlocs"] = "raise", type(err).__name__, []
             recs.append(rec)
-    # the systematic floor under the sampling: EVERY nasty name as a member name once, at the top and below
+    def node_records(q, d, ed, nodes):
+        for n in nodes:
+            found, obj = impl.walk(d, n.location)
+            rec = {"op": "requery", "q": core.enc_text(q), "doc": ed, "loc": core.enc_loc(n.location),
+                   "path": core.enc_text(n.path()), "vok": bool(found and impl.same_object(obj, n.value)), "lists": True}
+            try:
+                again = jp.find(n.path(), d)
+                rec["rout"], rec["cls"] = "ok", ""
+                rec["rlocs"] = [core.enc_loc(a.location) for a in again]
+                if len(again) == 1 and not impl.same_object(again[0].value, n.value):
+                    rec["vok"] = False
+            except Exception as err:  # noqa: BLE001
+                rec["rout"], rec["cls"], rec["rlocs"] = "raise", type(err).__name__, []
+            recs.append(rec)
+
+    # systematic floors under the sampling (what a seeded change was once caught by must not depend on a random document):
+    # (a) indices and slices that have to be normalised / clamped, on arrays of every small length, at the top and below '..'
+    for n_el in range(0, 5):
+        for d in ([{"v": i} for i in range(n_el)], {"a": [[i] for i in range(n_el)], "b": list(range(n_el))}):
+            ed = core.enc_value(d)
+            for q in ("$[5::-1]", "$[3::-1]", "$[2::-1]", "$[-1::-1]", "$[::-1]", "$[-9:2]", "$[2:-9:-1]", "$[-1]", "$[-3]", "$[-4]", "$[9:0:-2]",
+                      "$..[-1]", "$..[2::-1]", "$..[4::-2]", "$.a[-1][-1]", "$.b[-2:]", "$.a[3::-1][0]", "$..[-2, 0]"):
+                try:
+                    node_records(q, d, ed, jp.find(q, d))
+                except Exception:  # noqa: BLE001
+                    pass
+    # (b) compiled queries with a descendant segment that first abandon an evaluation over ANOTHER document below its input node
+    other = {"a": [{"a": [1, {"b": 2}]}, [3, [4]]], "b": {"a": {"a": 0}, "c": [5]}}
+    for d in ({"x": [{"a": 1, "b": [2]}, [3]], "a": {"b": {"a": 4}}}, [[{"a": [1]}], {"b": [2, {"a": 3}]}]):
+        ed = core.enc_value(d)
+        for env_ in (jp, nd_env):
+            for q in ("$..*", "$..a", "$..[0]", "$..[?@]", "$.a..*", "$..[-1]", "$..b..a", "$[*]..[0]"):
+                try:
+                    cq = env_.compile(q)
+                    cq.find_one(other)
+                    it = iter(cq.finditer(other))
+                    next(it, None)
+                    next(it, None)
+                    next(it, None)
+                    del it
+                    node_records(q, d, ed, cq.find(d))
+                except Exception:  # noqa: BLE001
+                    pass
+    # (c) EVERY nasty name as a member name once, at the top and below
     for name in gen.NASTY_NAMES:
         d = {name: 1, "z": {name: [2, {name: 3}]}}
         ed = core.enc_value(d)
